@@ -8,7 +8,7 @@ unchanged.  The loop invariants are generated from the same formula ("map loops"
 (Inverter, Rectifier, Square, Diode, Sign, Identity, Inverser, Thresholder) are verified with Apply.execute inlined and
 their own lambda.  Second batch: Shift (y(t) = x(t - k), NaN outside), ShiftRight / ShiftLeft / ShiftRev through it,
 ScalarDivider (x * (1 / k)), ScalarRevDivider (k * (1 / x)) and the read-only aggregates Sum, Averager (folds over the
-non-NaN values), Min, Max.
+non-NaN values), Min, Max; Reverser and Log store their result with track[name] = list (Track.__setitem__, C01).
 The expression parser / RPN evaluator (string rewriting, recursion over unbounded strings) is bounded only."""
 import z3
 from pyvc.kinds import *
@@ -158,6 +158,17 @@ def register(reg):
                  ensures=[("documented-pointwise-value", "all(same(col(track, af_output, r), (NAN if isnan(%s) else (%s if %s < number else number))) for r in range(0, %s))"
                            % (U % "r", U % "r", U % "r", N))] + [c for c in common() if c[0] not in ("length", "stored")]))
     funcs.append(OPS + "Thresholder.execute")
+    # operators that store their result with a bracket assignment track[af_output] = list (contract of Track.__setitem__, C01)
+    SETITEM = {"Reverser": ("old(col(track, af_input, %s - 1 - r))" % N, "temp[r] == old(col(track, af_input, %s - 1 - r))" % N, "same(temp[r], old(col(track, af_input, %s - 1 - r)))" % N),
+               "Log": ("(math.log(%s) if %s > 0 else 0.0)" % (U % "r", U % "r"), None, "same(temp[r], (math.log(%s) if %s > 0 else 0.0))" % (U % "r", U % "r"))}
+    for cls, (f, _, invf) in SETITEM.items():
+        reg.add(Spec(OPS + cls + ".execute", dict(self=cls, track="Track", af_input="str", af_output="str"), "none",
+                     requires=inputs_ok(["af_input"]), modifies=MOD, locals=dict(temp="list[float]"),
+                     loops={"1": LoopSpec(inv=["len(temp) == " + N, "all(%s for r in range(0, i))" % invf,
+                                               "unchanged('Obs.features', 'Track.%s', 'ENUCoords.E', 'ENUCoords.N', 'ENUCoords.U')" % DICO])},
+                     ensures=[("documented-pointwise-value", "all(same(col(track, af_output, r), %s) for r in range(0, %s))" % (f, N))]
+                     + [c for c in common() if c[0] not in ("length", "stored")] + [("stored", "hasname(track, af_output)")]))
+        funcs.append(OPS + cls + ".execute")
     # aggregates (read-only): XS is a ghost copy of the input column, so that the folds can be written over a list
     AGG_REQ = ["twf(track)", "not reserved(af_input) and hasname(track, af_input)", "len(XS) == " + N,
                "all(same(XS[r], col(track, af_input, r)) for r in range(0, %s))" % N]
